@@ -9,9 +9,11 @@ import (
 	"path/filepath"
 	"sort"
 	"strings"
+	"time"
 
 	"github.com/google/mtail/internal/metrics"
 	"github.com/google/mtail/internal/mtail"
+	"github.com/google/mtail/internal/waker"
 )
 
 // C25 — self-monitoring counters are exact.
@@ -139,12 +141,21 @@ func propC25(e *Env) {
 	ctx, cancel := context.WithCancel(context.Background())
 	defer cancel()
 	sw, pw := NewSimWaker(), NewSimWaker()
+	var swk, pwk waker.Waker = sw, pw
+	if e.Choose("knob", 5) == 0 {
+		// configuration variant: mtail's own timed wakers under the fake clock
+		const iv = 250 * time.Millisecond
+		adv := func() { e.S.Advance(iv) }
+		sw.adv, pw.adv = adv, adv
+		swk, pwk = waker.NewTimed(ctx, iv), waker.NewTimed(ctx, iv)
+		e.Probe("real_timed_wakers")
+	}
 	var srv *mtail.Server
 	var nerr error
 	returned := false
 	e.S.Go("mtail", func() {
 		srv, nerr = mtail.New(ctx, store, mtail.ProgramPath(progs), mtail.LogPathPatterns(filepath.Join(logs, "*.log")),
-			mtail.LogPatternPollWaker(pw), mtail.LogstreamPollWaker(sw))
+			mtail.LogPatternPollWaker(pwk), mtail.LogstreamPollWaker(swk))
 		if nerr != nil {
 			returned = true
 			return
